@@ -30,12 +30,22 @@ func genC10(seed uint64, idx int, tier string) *Scenario {
 	sc.Config = baseConfig + serviceConfig(p, "svc0")
 	nip := r.Range(1, 3)
 	gaps := []int64{0, 0, 0, 0, 1, 1000, 60000, 300000, 599000, 599999, 600000, 600001, 1500000}
+	flood := r.Chance(0.3)
+	if flood {
+		// the amplification attempt proper: a source never seen before sends a burst, all of it released within a
+		// step or two, handlers giving way to each other at synchronisation points
+		nip = r.Range(1, 2)
+		gaps = []int64{0}
+	}
 	udpMaxReqV = 1 << 30
 	for i := 0; i < nip; i++ {
 		ip := fmt.Sprintf("203.0.113.%d", 10+i)
 		n := r.Range(1, 12)
 		if r.Chance(0.1) {
 			n = r.Range(50, 200)
+		}
+		if flood {
+			n = r.Range(6, 14)
 		}
 		cmds := p.Gen(r, fmt.Sprintf("t%c%s", 'a'+i, r.word(2, 2)), n)
 		// one actor per source IP; the source port changes through separate actors sharing the IP
@@ -59,11 +69,24 @@ func genC10(seed uint64, idx int, tier string) *Scenario {
 	}
 	sc.Class = fmt.Sprintf("%s ips=%d", pn, nip)
 	sc.Schedule = r.Schedule(300)
-	if r.Chance(0.3) {
+	if flood {
 		for i := range sc.Schedule {
-			if r.Chance(0.3) {
-				sc.Schedule[i] |= 1 << 16
+			sc.Schedule[i] |= 1<<16 | 3<<17
+		}
+		sc.Params["yield_pct"] = []int{30, 50, 70}[r.Intn(3)]
+		sc.Class += " flood yields"
+	} else if r.Chance(0.4) {
+		bursty := r.Chance(0.5)
+		for i := range sc.Schedule {
+			if r.Chance(0.3) || bursty {
+				sc.Schedule[i] |= 1<<16 | r.Intn(4)<<17
 			}
+		}
+		if r.Chance(0.6) {
+			// the handlers of one step give way to each other at synchronisation points (seeded): a burst of
+			// datagrams from a source seen for the first time is then handled "at the same time"
+			sc.Params["yield_pct"] = []int{20, 50, 80}[r.Intn(3)]
+			sc.Class += " yields"
 		}
 	}
 	sc.DrainMs = 2000
@@ -141,6 +164,7 @@ func runC10(t *testing.T, sc *Scenario) Result {
 	}
 	res.probe("responses", total)
 	res.probe("requests", sent)
+	res.probe("yields-taken", obs.Yields)
 	if sent > total {
 		res.probe("limiter-refused", sent-total)
 	}
